@@ -30,7 +30,7 @@ def check_split(rep, prog):
     rep.check(okk, "C17.R1.header-search", "the whole buffer is searched (find = first occurrence) for 02 20 01 42 + each of the six buffer names", where,
               "data_bytes.find(start_bytes)", "trace buffer headers are not located by find() of the 4-byte header start followed by one of "
               "IICS/IICM/POWR/FANS/INFO/ERRL on the whole dump: %s" % [(e.data[1], repr(e.data[2])[:40]) for e in finds])
-    srt = [e for e in I.events if e.kind == "sorted" and e.func == DQ + "parse_dump_data"]
+    srt = [e for e in I.events if e.kind == "sorted"]
     oks = len(srt) == 1 and not srt[0].data[1]
     offs = srt[0].data[0] if oks else None
     items = list_items(I, offs) if offs is not None else None
